@@ -624,6 +624,18 @@ fn run(ctx: &mut Ctx, rep: &mut Report) {
                 names.push(d);
             }
         }
+        // labels of 60..65 characters, alone and before / after another label
+        for l in 60..=65usize {
+            let lab: Vec<u8> = std::iter::repeat(b'l').take(l).collect();
+            names.push(lab.clone());
+            let mut a = lab.clone();
+            a.extend_from_slice(b".tail");
+            names.push(a);
+            let mut b = b"head.".to_vec();
+            b.extend_from_slice(&lab);
+            b.push(b'.');
+            names.push(b);
+        }
         for (k, n) in names.into_iter().enumerate() {
             gi += 1;
             if !ctx.mine(gi) {
